@@ -26,18 +26,18 @@ type MRoute struct {
 }
 
 type MEndpoint struct {
-	Name      string     `json:"name"`
-	Routes    []MRoute   `json:"routes"`
-	Params    []MParam   `json:"params"`
-	Headers   []MParam   `json:"headers"`
-	Cookies   []MParam   `json:"cookies"`
-	Body      bool       `json:"body"`
-	Multipart bool       `json:"multipart"`
-	Basic     *bool      `json:"basic,omitempty"` // payload carries a basic-auth username: its required flag
-	Responses []int      `json:"responses"`
-	Errors    []int      `json:"errors"`
-	Reqs      [][]string `json:"reqs"`
-	Unmodelled string    `json:"unmodelled,omitempty"`
+	Name       string     `json:"name"`
+	Routes     []MRoute   `json:"routes"`
+	Params     []MParam   `json:"params"`
+	Headers    []MParam   `json:"headers"`
+	Cookies    []MParam   `json:"cookies"`
+	Body       bool       `json:"body"`
+	Multipart  bool       `json:"multipart"`
+	Basic      *bool      `json:"basic,omitempty"` // payload carries a basic-auth username: its required flag
+	Responses  []int      `json:"responses"`
+	Errors     []int      `json:"errors"`
+	Reqs       [][]string `json:"reqs"`
+	Unmodelled string     `json:"unmodelled,omitempty"`
 }
 
 type MFile struct {
@@ -168,7 +168,7 @@ func coqNList(xs []int) string {
 func (in *interner) names(ns []string) string {
 	xs := make([]int, len(ns))
 	for i, n := range ns {
-		xs[i] = in.id("scheme:" + n)
+		xs[i] = in.id(n)
 	}
 	return coqNList(xs)
 }
@@ -184,7 +184,7 @@ func (in *interner) reqs(rs [][]string) string {
 func (in *interner) mparams(ps []MParam) string {
 	ss := make([]string, len(ps))
 	for i, p := range ps {
-		ss[i] = fmt.Sprintf("mkm %d %d %s %s %s", in.id("attr:"+p.Attr), in.id("wire:"+p.Wire), vh.CoqBool(p.Required), vh.CoqBool(p.HasDef), vh.CoqBool(p.Auth))
+		ss[i] = fmt.Sprintf("mkm %d %d %s %s %s", in.id(p.Attr), in.id(p.Wire), vh.CoqBool(p.Required), vh.CoqBool(p.HasDef), vh.CoqBool(p.Auth))
 	}
 	return "[" + strings.Join(ss, "; ") + "]"
 }
@@ -209,7 +209,7 @@ func (in *interner) coqDesign(md *MDesign) (string, bool) {
 			}
 			basic := "None"
 			if e.Basic != nil {
-				basic = "(Some " + vh.CoqBool(*e.Basic) + ")"
+				basic = fmt.Sprintf("(Some (%d, %s))", in.id("Authorization"), vh.CoqBool(*e.Basic))
 			}
 			eps = append(eps, fmt.Sprintf("mke [%s] %s %s %s %s %s %s %s %s %s", strings.Join(rts, "; "), in.mparams(e.Params), in.mparams(e.Headers), in.mparams(e.Cookies),
 				vh.CoqBool(e.Body), vh.CoqBool(e.Multipart), basic, coqNList(e.Responses), coqNList(e.Errors), in.reqs(e.Reqs)))
@@ -237,9 +237,9 @@ func (in *interner) pathAttr(p string) (string, bool) {
 	for i, s := range segs {
 		switch {
 		case strings.HasPrefix(s, "{*") && strings.HasSuffix(s, "}") && isName(s[2:len(s)-1]):
-			out[i] = fmt.Sprintf("Star %d", in.id("attr:"+s[2:len(s)-1]))
+			out[i] = fmt.Sprintf("Star %d", in.id(s[2:len(s)-1]))
 		case strings.HasPrefix(s, "{") && strings.HasSuffix(s, "}") && isName(s[1:len(s)-1]):
-			out[i] = fmt.Sprintf("Var %d", in.id("attr:"+s[1:len(s)-1]))
+			out[i] = fmt.Sprintf("Var %d", in.id(s[1:len(s)-1]))
 		default:
 			if strings.ContainsAny(s, "{}") {
 				ok = false
@@ -247,7 +247,7 @@ func (in *interner) pathAttr(p string) (string, bool) {
 			if s == "" {
 				out[i] = "Lit 0"
 			} else {
-				out[i] = fmt.Sprintf("Lit %d", in.id("seg:"+s))
+				out[i] = fmt.Sprintf("Lit %d", in.id(s))
 			}
 		}
 	}
@@ -285,7 +285,7 @@ func (in *interner) coqOps(ops []Op, schemes []string, docKeys bool) (string, bo
 				l = "InQuery"
 			}
 			auth := p.In == "header" && strings.ToLower(p.Name) == "authorization"
-			ps = append(ps, fmt.Sprintf("mkp %d %s %s %s", in.id("wire:"+p.Name), l, vh.CoqBool(p.Required), vh.CoqBool(auth)))
+			ps = append(ps, fmt.Sprintf("mkp %d %s %s %s", in.id(p.Name), l, vh.CoqBool(p.Required), vh.CoqBool(auth)))
 		}
 		var sec []string
 		for _, rq := range o.Security {
